@@ -12,6 +12,10 @@ import RV.Base.Proto
   N-Triples lines; terms as  i:IRI | b:LABEL | l:LEX:DT|*:LANG|*  (code points):
     ntparse LINE       -> ok S P O | none        the W3C line grammar applied to a line rdflib wrote
     ntrow S P O        -> code points of the line the writer model (`_nt_row`) produces
+    xmltree BASEARG|* STOREBASE|* XMLBASEOPT|* S P O S P O …  -> `R DECLARED|*` (the xml:base the document declares, `xmlBases`)
+                          and the element tree of the `xml` serializer model (`xmlDocument`): blocks joined by ` | `,
+                          block = `S ATTRS` then ` P TAG ATTRS TEXT` per property element; ATTRS = `key=cps;…` or `-`
+                          (keys about, nodeID, resource, datatype, lang); terms as for ntrow
     ntdoc TEXT         -> ok N S P O S P O … | none   the whole document through the model reader (`readDoc`): line grammar
                           per line, labels through the per-document table; blank nodes come back as b:<creation number>
   Base relativisation (code points):
@@ -188,7 +192,31 @@ def showDoc : Option (List Str × List RTriple) → String
   | some (_, ts) => "ok " ++ toString ts.length ++
       String.join (ts.map (fun t => " " ++ showRTerm t.1 ++ " " ++ showRTerm t.2.1 ++ " " ++ showRTerm t.2.2))
 
+def showKey : XKey → String
+  | .about => "about" | .nodeID => "nodeID" | .resource => "resource" | .datatype => "datatype" | .lang => "lang"
+
+def showAttrs (a : List (XKey × Str)) : String :=
+  if a.isEmpty then "-" else ";".intercalate (a.map (fun kv => showKey kv.1 ++ "=" ++ showCps kv.2))
+
+def showXSubj (e : XSubj) : String :=
+  "S " ++ showAttrs e.attrs ++
+    String.join (e.props.map (fun p => " P " ++ showCps p.tag ++ " " ++ showAttrs p.attrs ++ " " ++ showCps p.text))
+
+def xtriples? : List String → Option (List XTriple)
+  | [] => some []
+  | a :: b :: c :: rest => do
+    let x ← nterm? a; let z ← nterm? c; let r ← xtriples? rest
+    match nterm? b with
+    | some (.iri p) => pure ((x, p, z) :: r)
+    | _ => none
+  | _ => none
+
 def step' (s : Unit) : List String → Unit × String
+  | "xmltree" :: b :: sb :: xb :: rest => match optCps? b, optCps? sb, optCps? xb, xtriples? rest with
+    | some base, some sbase, some xbase, some g =>
+      (s, " | ".intercalate (("R " ++ showOptCps (xmlDocument base sbase xbase g).1) ::
+            (xmlDocument base sbase xbase g).2.map showXSubj))
+    | _, _, _, _ => (s, "bad-op")
   | ["ntdoc", a] => match cps? a with
     | some x => (s, showDoc (readDoc [] (splitLines [] x))) | none => (s, "bad-op")
   | "choice" :: rest => match stepChoice rest with
